@@ -137,12 +137,16 @@ def compare(got, exp, order=True, index=True, exact=False, rtol=1e-9, dtypes=Tru
     if kg != ke:
         return {"symptom": "container-kind", "got": kg, "exp": ke}
     if kg == "scalar":
+        if not exact and (isinstance(got, np.float32) or isinstance(exp, np.float32)):
+            rtol = max(rtol, 1e-5)
         a, b = norm(_unwrap(got)), norm(_unwrap(exp))
         if val_eq(a, b, exact, rtol):
             return None
         return {"symptom": "scalar-value", "got": repr(got)[:80], "exp": repr(exp)[:80]}
     fg, dg = to_frame(got, index)
     fe, de = to_frame(exp, index)
+    if not exact and any(str(dt) == "float32" for dt in list(fg.dtypes) + list(fe.dtypes)):
+        rtol = max(rtol, 1e-5)  # single-precision data: summation order shows at ~1e-7
     if kg == "frame" and dg["columns"] != de["columns"]:
         cg = dg["columns"]
         sym = "duplicate-column-labels" if len(set(map(repr, cg))) != len(cg) and len(set(map(repr, de["columns"]))) == len(de["columns"]) else "column-labels"
@@ -170,6 +174,8 @@ def compare(got, exp, order=True, index=True, exact=False, rtol=1e-9, dtypes=Tru
             return {"symptom": sym, "row": i, "got": repr(a)[:200], "exp": repr(b)[:200], "ordered": order}
     if dtypes:
         for j in range(fg.shape[1]):
+            if str(fg.columns[j]).startswith("__i"):
+                continue  # equal index labels were already compared by value; their dtype is the schema audit's matter (C07)
             a, b = dkind(fg.iloc[:, j].dtype), dkind(fe.iloc[:, j].dtype)
             if a != b and not _promotion_ok(a, b, fg.iloc[:, j], fe.iloc[:, j]):
                 return {"symptom": "dtype-kind", "col": str(fg.columns[j]), "got": str(fg.iloc[:, j].dtype), "exp": str(fe.iloc[:, j].dtype)}
